@@ -750,29 +750,35 @@ func (w *world) doPruneCut(k int, mode string) {
 
 // ---------------------------------------------------------------- contracts
 
-func (w *world) doAddC1(c int, wend, neg uint64) {
+func (w *world) doAddC1(c int, wend, neg uint64) { w.doAddC1W(c, wend, wend, neg) }
+
+// doAddC1W: a v1 contract with the proof window [wstart, wend]
+func (w *world) doAddC1W(c int, wstart, wend, neg uint64) {
 	uc := types.UnlockConditions{PublicKeys: []types.UnlockKey{w.renterKey.PublicKey().UnlockKey(), w.hostKey.PublicKey().UnlockKey()}, SignaturesRequired: 2}
 	rev := contracts.SignedRevision{Revision: types.FileContractRevision{
 		ParentID: c1ID(c), UnlockConditions: uc,
-		FileContract: types.FileContract{UnlockHash: uc.UnlockHash(), WindowStart: wend, WindowEnd: wend},
+		FileContract: types.FileContract{UnlockHash: uc.UnlockHash(), WindowStart: wstart, WindowEnd: wend},
 	}}
 	res := try(func() error { return w.store.AddContract(rev, []types.Transaction{}, types.ZeroCurrency, contracts.Usage{}, neg) })
 	if res == "ok" {
 		w.c1[c] = rev
 		w.c1ids = append(w.c1ids, c)
 	}
-	w.line(fmt.Sprintf("addc1 c=%d wend=%d neg=%d", c, wend, neg), "res="+res)
+	w.line(fmt.Sprintf("addc1 c=%d wend=%d neg=%d wstart=%d", c, wend, neg, wstart), "res="+res)
 }
 
-func (w *world) doAddC2(c int, exp, neg uint64) {
+func (w *world) doAddC2(c int, exp, neg uint64) { w.doAddC2P(c, exp, exp, neg) }
+
+// doAddC2P: a v2 contract with the proof window [proof, exp]
+func (w *world) doAddC2P(c int, proof, exp, neg uint64) {
 	con := contracts.V2Contract{ID: c2ID(c), NegotiationHeight: neg,
-		V2FileContract: types.V2FileContract{RenterPublicKey: w.renterKey.PublicKey(), HostPublicKey: w.hostKey.PublicKey(), ProofHeight: exp, ExpirationHeight: exp}}
+		V2FileContract: types.V2FileContract{RenterPublicKey: w.renterKey.PublicKey(), HostPublicKey: w.hostKey.PublicKey(), ProofHeight: proof, ExpirationHeight: exp}}
 	res := try(func() error { return w.store.AddV2Contract(con, rhp4.TransactionSet{}) })
 	if res == "ok" {
 		w.c2[c] = con
 		w.c2ids = append(w.c2ids, c)
 	}
-	w.line(fmt.Sprintf("addc2 c=%d exp=%d neg=%d", c, exp, neg), "res="+res)
+	w.line(fmt.Sprintf("addc2 c=%d exp=%d neg=%d proof=%d", c, exp, neg, proof), "res="+res)
 }
 
 func (w *world) doReject(h uint64) {
